@@ -1,3 +1,4 @@
+#![feature(allocator_api)]
 // Unit var (C08, parts of C05 / C07 / C13): the write paths of Var (src/var.rs) and State::is_stable.
 use vstd::prelude::*;
 use std::rc::Rc;
@@ -251,6 +252,99 @@ impl Var {
 //@end
 }
 
+
+// ---- public::Var drop (src/public.rs): the last handle parks the variable for teardown at stabilise end,
+//      whatever is pending on it ("including variables whose last handle is dropped while a deferred write is pending") ----
+pub uninterp spec fn rc_count<T: ?Sized, A: std::alloc::Allocator>(r: &Rc<T, A>) -> usize;
+pub assume_specification<T: ?Sized, A: std::alloc::Allocator>[ Rc::<T, A>::strong_count ](this: &Rc<T, A>) -> (r: usize)
+    ensures r == rc_count(this);
+#[verifier::external_body]
+pub fn vx_forbidden() requires false { }
+
+#[verifier::external_body]
+pub struct DeadVarsGuard { _p: u8 }
+impl DeadVarsGuard {
+    #[verifier::external_body]
+    pub fn push(&mut self, w: WeakVar) { unimplemented!() }
+    #[verifier::external_body]
+    pub fn push__reached(&mut self, w: WeakVar) ensures false { unimplemented!() }
+}
+#[verifier::external_body]
+pub struct DeadVars { _p: u8 }
+impl DeadVars {
+    #[verifier::external_body]
+    pub fn borrow_mut(&self) -> DeadVarsGuard { unimplemented!() }
+}
+pub struct StateDV { pub dead_vars: DeadVars }
+#[verifier::external_body]
+pub struct WeakStateDV { _p: u8 }
+pub uninterp spec fn state_alive(w: &WeakStateDV) -> bool;
+impl WeakStateDV {
+    #[verifier::external_body]
+    pub fn upgrade(&self) -> (r: Option<Rc<StateDV>>) ensures r is Some == state_alive(self) { unimplemented!() }
+}
+/// the shared variable as seen through the handle's Rc: only what Var::drop does with it
+pub struct SharedVar { pub state: WeakStateDV }
+impl SharedVar {
+    #[verifier::external_body]
+    pub fn erased(&self) -> WeakVar { unimplemented!() }
+    #[verifier::external_body]
+    pub fn break_rc_cycle(&self) { unimplemented!() }
+    #[verifier::external_body]
+    pub fn break_rc_cycle__reached(&self) ensures false { unimplemented!() }
+    #[verifier::external_body]
+    pub fn was_changed_during_stabilisation(&self) -> bool { unimplemented!() }
+}
+pub struct PublicVar { pub internal: Rc<SharedVar>, pub sentinel: Rc<()> }
+
+impl PublicVar {
+    #[verifier::external_body]
+    fn id(&self) -> NodeId { unimplemented!() }
+
+//@extract fn public::Var::drop!not_last
+//@ file: src/public.rs
+//@ impl: impl<T: Value> Drop for Var<T>
+//@ name: drop
+//@ as: fn drop__other_handles_alive(&mut self)
+//@ tracing: yes
+//@ rule R8: `dead_vars.push(self.internal.erased());` => `vx_forbidden();` x*
+//@ rule R8: `self.internal.break_rc_cycle();` => `vx_forbidden();` x*
+//@ props: C08
+//@ contract:
+//@|     requires rc_count(&old(self).sentinel) >= 2,
+//@|     // [dropping-a-handle-that-is-not-the-last-touches-nothing]
+//@end
+
+//@extract fn public::Var::drop!last_state_alive
+//@ file: src/public.rs
+//@ impl: impl<T: Value> Drop for Var<T>
+//@ name: drop
+//@ as: fn drop__last_handle_parks_the_variable(&mut self)
+//@ tracing: yes
+//@ panics: diverge
+//@ rule R8: `dead_vars.push(self.internal.erased());` => `dead_vars.push__reached(self.internal.erased());` x*
+//@ rule R8: `self.internal.break_rc_cycle();` => `vx_forbidden();` x*
+//@ props: C08
+//@ contract:
+//@|     requires rc_count(&old(self).sentinel) <= 1, state_alive(&old(self).internal.state),
+//@|     ensures false, // [the-last-handle-always-parks-the-variable-on-dead_vars-whatever-is-pending]  (never tears it down at once)
+//@end
+
+//@extract fn public::Var::drop!last_state_gone
+//@ file: src/public.rs
+//@ impl: impl<T: Value> Drop for Var<T>
+//@ name: drop
+//@ as: fn drop__last_handle_after_the_state_breaks_the_cycle(&mut self)
+//@ tracing: yes
+//@ panics: diverge
+//@ rule R8: `dead_vars.push(self.internal.erased());` => `vx_forbidden();` x*
+//@ rule R8: `self.internal.break_rc_cycle();` => `self.internal.break_rc_cycle__reached();` x*
+//@ props: C08
+//@ contract:
+//@|     requires rc_count(&old(self).sentinel) <= 1, !state_alive(&old(self).internal.state),
+//@|     ensures false, // [the-last-handle-after-the-state-is-gone-breaks-the-var-node-cycle]
+//@end
+}
 
 // ---- State::is_stable (src/state.rs) -------------------------------------------------------------------
 pub struct PendingHeap { pub length: usize }
